@@ -72,20 +72,21 @@ def rule_nodes(rep, polys):
     for t in ("SincFixedIn", "SincFixedOut"):
         m = asyncmodel.extract(facts, t)
         alg = make_alg(facts, t)
-        idx = alg.sym("idx")
+        IDX = m["roles"]["idx"]
+        idx = alg.sym(IDX)
         Fv = sp.Function("m_nbr_sincs")(alg.sym("interpolator"))
         for a in m["arms"]:
             key = "%s/%s" % (t, a["variant"])
             if a["variant"] == "Nearest":
-                st = [s for s in a["steps"] if s[0] == "assign" and s[1] == "nearest"]
-                ok = len(st) == 1 and st[0][2].get("k") == "call" and is_path(st[0][2]["f"], "get_nearest_time") and is_path(st[0][2]["args"][0], "idx")
+                st = [s for s in a["steps"] if s[0] in ("assign", "let") and isinstance(s[2], dict) and s[2].get("k") == "call" and is_path(s[2]["f"], "get_nearest_time")]
+                ok = len(st) == 1 and st[0][2].get("k") == "call" and is_path(st[0][2]["f"], "get_nearest_time") and is_path(st[0][2]["args"][0], IDX)
                 w = a.get("writes", [])
                 direct = len(w) == 1 and w[0]["rhs"].get("k") == "mcall" and w[0]["rhs"]["name"] == "get_sinc_interpolated"
                 rep.ob(R, key, ok and direct, "Nearest arm takes the point returned by get_nearest_time(idx, factor) unblended", loc(m["fn"], a["node"]))
                 continue
             blend, nfn, npts = SINC_BLENDS[a["variant"]]
             calls = [s for s in a["steps"] if s[0] == "call"]
-            c_ok = len(calls) == 1 and calls[0][1] == nfn and is_path(calls[0][2][0], "idx") and nbit(strip_casts(calls[0][2][1])) in ("self.interpolator.nbr_sincs()",)
+            c_ok = len(calls) == 1 and calls[0][1] == nfn and is_path(calls[0][2][0], IDX) and nbit(strip_casts(calls[0][2][1])) in ("self.interpolator.nbr_sincs()",)
             d = a["decls"]
             arr_ok = d.get("points") is not None and d["points"].get("k") == "repeat" and nbit(d["points"]["n"]) == "i:%d" % npts
             w = a.get("writes", [])
